@@ -10,6 +10,7 @@ import tempfile
 import time
 from pathlib import Path
 
+from tools.corr import C09_occ
 from tools.corr.C09_defs import COMBOS, Builder
 from tools.corr.C09_runner import KProperty, is_sub_threshold, physical_point
 from tools.lib import common
@@ -21,16 +22,26 @@ SOURCES = [
     "src/ampform/dynamics/form_factor.py",
 ]
 KNOWN_CLASS = "relativistic K-matrix with a pole mass below a channel threshold"
+OBSERVATION_CLASS = ("relativistic K-matrix, angular momentum >= 1, pole mass below a channel threshold with a phase-space "
+                     "factor that is real and positive there: FormFactor(m_R^2) is not real")
+VIOLATION_CLASS = ("relativistic K-matrix not unitary/symmetric although the phase-space factor passed to formulate() "
+                   "is real and positive, and the form factors are real, at s and at every pole mass")
 
 
 def build():
-    from ampform.dynamics import PhaseSpaceFactor
-
-    b = Builder(PhaseSpaceFactor)
+    """Everything is translated from calls with a MARKER phase-space implementation (and the symbols
+    L, d): the parametrisations directly, formulate() with `phsp_factor=marker`. The leaf translator
+    (check_markers) refuses any other phase-space class / angular momentum / radius inside the result,
+    and a formulated entry is only recognised as `matrix expression ∘ parametrisation` when its sums ARE
+    the marker parametrisations — a formulate() that does not forward an argument is untranslatable."""
+    b = Builder(C09_occ.marker_phsp(), check_markers=True)
     b.matrix_level_kmatrix()
     b.parametrisations_kmatrix(combos=[*COMBOS, (2, 3), (2, 4)])  # 3 and 4 poles: parametrisation only
     b.formulated_kmatrix()
-    return b.out, {}, {"translated_families": sorted({k.family for k in b.out})}
+    rows = C09_occ.occurrence_table(C09_occ.marker_phsp(), b.L, b.d)
+    return b.out, {}, {"translated_families": sorted({k.family for k in b.out}),
+                       "translated_with_phsp_factor": C09_occ.MARKER_NAME,
+                       "gen_extra": C09_occ.occurrence_lean(rows), "occurrence_rows": len(rows)}
 
 
 # --------------------------------------------------------------------------- oracle on the real code
@@ -77,16 +88,203 @@ def evaluate_case(case: dict) -> dict:
             "finite": bool(np.all(np.isfinite(T)))}
 
 
+_RHO_CACHE: dict = {}
+
+
+def _rho_function(phsp_name: str):
+    """Numeric ρ(s, m1, m2) of ONE phase-space implementation of the library, evaluated on its own
+    (the leaf of the Lean model: `rho{i}` at s, `rhoR_{R}_{i}` at m_R²)."""
+    import sympy as sp
+
+    import ampform.dynamics as dyn
+
+    if phsp_name not in _RHO_CACHE:
+        x, y, z = sp.symbols("x_rho y_rho z_rho", nonnegative=True)
+        _RHO_CACHE[phsp_name] = sp.lambdify([x, y, z], getattr(dyn, phsp_name)(x, y, z).doit(), "numpy")
+    return _RHO_CACHE[phsp_name]
+
+
+def _real_positive(z: complex) -> bool:
+    return math.isfinite(z.real) and math.isfinite(z.imag) and z.real > 0 and abs(z.imag) <= 1e-9 * abs(z.real)
+
+
+def _ff_function(L: int):
+    """Numeric FormFactor(s, m1, m2, L, d) of the library (leaves `ff_{i}` at s, `ff0_{R}_{i}` at m_R²)."""
+    import sympy as sp
+
+    from ampform.dynamics.form_factor import FormFactor
+
+    key = ("ff", int(L))
+    if key not in _RHO_CACHE:
+        x, y, z, d = sp.symbols("x_ff y_ff z_ff d_ff", nonnegative=True)
+        _RHO_CACHE[key] = sp.lambdify([x, y, z, d], FormFactor(x, y, z, int(L), d).doit(), "numpy")
+    return _RHO_CACHE[key]
+
+
+def _real_nonzero(z: complex) -> bool:
+    return math.isfinite(z.real) and math.isfinite(z.imag) and abs(z.real) > 0 and abs(z.imag) <= 1e-9 * abs(z.real)
+
+
+def classify(case: dict) -> dict:
+    """The hypotheses of the theorems of Props/C09 Part D, evaluated leaf by leaf for the phase-space
+    factor / angular momentum / radius the CALLER passes to formulate() — independently of what the
+    formulated expression contains: `0 < ρ_i(s)`, `0 < ρ_i(m_R²)` (the stated guard) and the form-factor
+    leaves `ff_i(s)`, `ff_i(m_R²)` real (they are real variables of the model). Where all of them hold
+    C09 demands unitarity, whatever side of the thresholds the poles are on. Where ρ_i(m_R²) is not real
+    and positive the input belongs to the known finding; where only a form factor at a pole mass is not
+    real (L >= 1, pole below a threshold, factor real there) it is recorded as an observation."""
+    if case.get("kind") != "rel":
+        return {"rho_at_s_real_positive": True, "rho_at_pole_real_positive": True, "ff_at_pole_real": True,
+                "min_abs_rho_at_pole": None}
+    import numpy as np
+
+    f = _rho_function(case["phsp"])
+    g = _ff_function(case["L"])
+    v, nc, np_ = case["values"], case["n_channels"], case["n_poles"]
+    d = complex(v.get("d", case.get("d", 1.0)))
+    ch = [(complex(v[f"m_a_{i}"]), complex(v[f"m_b_{i}"])) for i in range(nc)]
+    with np.errstate(all="ignore"):
+        at_s = [complex(f(complex(v["s"]), a, b)) for a, b in ch]
+        at_p = [complex(f(complex(v[f"m_{r}"] ** 2), a, b)) for r in range(1, np_ + 1) for a, b in ch]
+        ff_s = [complex(g(complex(v["s"]), a, b, d)) for a, b in ch]
+        ff_p = [complex(g(complex(v[f"m_{r}"] ** 2), a, b, d)) for r in range(1, np_ + 1) for a, b in ch]
+    return {"rho_at_s_real_positive": all(_real_positive(z) for z in at_s) and all(_real_nonzero(z) for z in ff_s),
+            "rho_at_pole_real_positive": all(_real_positive(z) for z in at_p),
+            "ff_at_pole_real": all(_real_nonzero(z) for z in ff_p),
+            "min_abs_rho_at_pole": min(min(abs(z) for z in at_p), min(abs(z) for z in ff_p))}
+
+
+def placed_point(rng, nc: int, np_: int, placement: str) -> dict:
+    """Real parameter point with s above every threshold; channel thresholds distinct; pole 1 placed
+    `above` all thresholds, `between` the lowest and the highest (n_channels >= 2) or `below` all of
+    them; further poles on a random side. Every pole keeps 4 % distance from EVERY threshold (the
+    width normalisation ρ(m_R²) vanishes on a threshold) and |m_R² − s| > 0.2."""
+    for _ in range(2000):
+        m_a = [rng.uniform(0.1, 0.8) for _ in range(nc)]
+        m_b = [rng.uniform(0.1, 0.8) for _ in range(nc)]
+        thr = sorted(a + b for a, b in zip(m_a, m_b))
+        lo, top = thr[0], thr[-1]
+        if nc >= 2 and top < 1.25 * lo:
+            continue
+        s = rng.uniform((top * 1.05) ** 2, top**2 + 6.0)
+        poles = []
+        for r in range(np_):
+            where = placement if r == 0 else rng.choice(["above", "above", "between", "below"])
+            if where == "between" and nc < 2:
+                where = "below"
+            if where == "above":
+                poles.append(rng.uniform(top * 1.05, top + 2.5))
+            elif where == "between":
+                poles.append(rng.uniform(lo * 1.05, top * 0.95))
+            else:
+                poles.append(rng.uniform(0.3 * lo, 0.95 * lo))
+        if any(abs(m / th - 1) < 0.04 for m in poles for th in thr):
+            continue
+        if all(abs(m * m - s) > 0.2 for m in poles) and all(
+                abs(poles[a] - poles[b]) > 0.1 for a in range(np_) for b in range(a)):
+            break
+    else:  # pragma: no cover
+        raise common.InfraError("could not draw a placed parameter point")
+    v = {"s": s}
+    for i in range(nc):
+        v[f"m_a_{i}"] = m_a[i]
+        v[f"m_b_{i}"] = m_b[i]
+    for r in range(1, np_ + 1):
+        v[f"m_{r}"] = poles[r - 1]
+        for i in range(nc):
+            v[f"Gamma_{r}_{i}"] = rng.uniform(0.05, 0.6)
+            v[f"gamma_{r}_{i}"] = rng.choice([-1, 1]) * rng.uniform(0.3, 1.5)
+    return v
+
+
+def guard_class(c: dict) -> str:
+    if not c["rho_at_pole_real_positive"]:
+        return "rho(m_R^2) not real positive"
+    if not c["ff_at_pole_real"]:
+        return "rho(m_R^2) > 0 but FormFactor(m_R^2) not real"
+    return "hypotheses of the theorems hold"
+
+
+def _judge(chk, case: dict, key, bad: list, known: list, stats: dict) -> None:
+    """Evaluate the statement of C09 at one point and file the result."""
+    case.update(classify(case))
+    r = evaluate_case(case)
+    gc = guard_class(case)
+    cls = (case["kind"], case["phsp"], "L=0" if case["L"] == 0 else "L>=1", gc,
+           "pole below a threshold" if case["sub_threshold_pole"] else "poles above")
+    st = stats.setdefault(str(cls), {"cases": 0, "failing": 0, "worst_defect_over_tol": 0.0})
+    if (not r["finite"] or r["T_norm"] > 1e5 or not case["rho_at_s_real_positive"]
+            or (case["min_abs_rho_at_pole"] is not None and case["min_abs_rho_at_pole"] < 1e-3)):
+        chk.count(None)  # ill-conditioned (a pole on a threshold / near s) or outside the stated domain
+        return
+    chk.count(key)
+    st["cases"] += 1
+    if len(chk.coverage["samples"]) < 4:
+        chk.sample({"oracle_case": {k: case[k] for k in ("kind", "n_channels", "n_poles", "L", "phsp", "sub_threshold_pole",
+                                                         "rho_at_pole_real_positive", "ff_at_pole_real")}, **r})
+    tol = 1e-9 * (1 + r["T_norm"]) ** 2
+    ratio = max(r["unitarity_defect"], r["symmetry_defect"]) / tol
+    if ratio > 1:
+        st["failing"] += 1
+        what = "S†S ≠ 1" if r["unitarity_defect"] > tol else "T ≠ Tᵀ"
+        rec = {"what": what, **case, **r, "tolerance": tol}
+        if gc == "hypotheses of the theorems hold":
+            bad.append(rec)
+        elif gc == "rho(m_R^2) not real positive":
+            known.append(rec)
+        else:
+            # genuine behaviour of the unchanged library that the known-finding entry does not describe
+            # (notes/findings_C09.md): kept out of the verdict, recorded as an observation
+            obs = chk.coverage.setdefault("observations", [])
+            if len(obs) < 6:
+                obs.append({"class": OBSERVATION_CLASS, **{k: rec[k] for k in rec if k != "values"},
+                            "values": rec["values"]})
+    else:
+        st["worst_defect_over_tol"] = max(st["worst_defect_over_tol"], ratio)
+
+
+def sweep(chk, rng, tier: str, bad: list, known: list, stats: dict) -> None:
+    """Deterministic part of the oracle: EVERY phase-space implementation that is real above threshold ×
+    pole 1 above all thresholds / between two thresholds / below all thresholds (further poles on random
+    sides). Whether an input must be unitary is decided by the guard evaluated for the passed factor."""
+    for phsp in _PHSP:
+        configs = [(2, 2, 0), (1, rng.randint(1, 2), rng.randint(1, 4)), (2, 1, rng.randint(0, 3))]
+        if tier == "thorough":
+            configs += [(2, 3, rng.randint(0, 2)), (1, 4, rng.randint(0, 4)), (2, 2, rng.randint(1, 4))]
+        for nc, np_, L in configs:
+            placements = ["above", "below"] + (["between"] if nc >= 2 else [])
+            for placement in placements:
+                for j in range(3 if tier == "quick" else 8):
+                    vals = placed_point(rng, nc, np_, placement)
+                    vals["d"] = rng.uniform(0.5, 3.0)
+                    case = {"kind": "rel", "n_channels": nc, "n_poles": np_, "L": L, "phsp": phsp, "d": vals["d"],
+                            "values": vals, "pole_1": placement, "sub_threshold_pole": is_sub_threshold(vals, nc, np_)}
+                    _judge(chk, case, ("sweep", phsp, nc, np_, L, placement, j), bad, known, stats)
+
+
 def search(chk, rng, n_cases: int, tier: str):
-    """Independent oracle: the statement of C09 on the real code. Random real parameters, s above
-    all thresholds and away from the poles, poles on both sides of the thresholds."""
+    """Independent oracle: the statement of C09 on the real code. Real parameters, s above all
+    thresholds and away from the poles, poles on both sides of the thresholds: a deterministic sweep
+    over the phase-space implementations × pole placements, random configurations, and the
+    argument-forwarding statement on the real objects."""
+    bad: list = []
+    known: list = []
+    stats: dict = {}
+    t0 = time.time()
+    # forwarding of phsp_factor / angular_momentum / meson_radius (every implementation, numbers and symbols)
+    hbad, n_occ, impls = C09_occ.honour_cases(rng, tier)
+    chk.count(("forwarding", tuple(impls)), n_occ)
+    chk.info("phase_space_implementations_checked_for_forwarding", impls)
+    bad += hbad
+    chk.info("forwarding_seconds", round(time.time() - t0, 1))
+    t1 = time.time()
+    sweep(chk, rng, tier, bad, known, stats)
+    chk.info("sweep_seconds", round(time.time() - t1, 1))
     # quick: ≤ 2 poles; thorough, or quick after a broken obligation/correspondence: ≤ 4 poles
     max_c, max_p = (2, 2) if (tier == "quick" and not chk.broken) else (2, 4)
     n_cfg = 10 if tier == "quick" else 36
     per_cfg = max(4, n_cases // n_cfg)
-    bad = []
     dist: dict = {}
-    t0 = time.time()
     for c in range(n_cfg):
         kind = "nr" if c % 3 == 0 else "rel"
         nc = rng.randint(1, max_c)
@@ -100,24 +298,16 @@ def search(chk, rng, n_cases: int, tier: str):
             case = {"kind": kind, "n_channels": nc, "n_poles": np_, "L": L, "phsp": phsp,
                     "d": vals["d"], "values": vals,
                     "sub_threshold_pole": is_sub_threshold(vals, nc, np_)}
-            r = evaluate_case(case)
             key = (kind, nc, np_, L, phsp, case["sub_threshold_pole"])
             dist[str(key)] = dist.get(str(key), 0) + 1
-            if not r["finite"] or r["T_norm"] > 1e5:
-                chk.count(None)
-                continue
-            chk.count(("oracle", c, j))
-            if len(chk.coverage["samples"]) < 4:
-                chk.sample({"oracle_case": {k: case[k] for k in ("kind", "n_channels", "n_poles", "L", "phsp", "sub_threshold_pole")}, **r})
-            tol = 1e-9 * (1 + r["T_norm"]) ** 2
-            if r["unitarity_defect"] > tol or r["symmetry_defect"] > tol:
-                what = "S†S ≠ 1" if r["unitarity_defect"] > tol else "T ≠ Tᵀ"
-                bad.append({"what": what, **case, **r, "tolerance": tol})
+            _judge(chk, case, ("oracle", c, j), bad, known, stats)
     chk.info("oracle_input_distribution", dist)
+    chk.info("oracle_classes", stats)
     chk.info("oracle_seconds", round(time.time() - t0, 1))
     if tier == "thorough":
         bad += three_channel_oracle(chk, rng)
-    return bad
+    # inputs of the known finding last: the runner reports the first few distinct failing inputs
+    return bad + known
 
 
 # --------------------------------------------------------------------------- n = 3 (thorough, capped)
@@ -212,7 +402,14 @@ def three_channel_oracle(chk, rng, cap_s: int = 1200):
             chk.count(("n3-formulate", case["kind"], round(case["values"]["s"], 9)))
             tol = 1e-8 * (1 + r["T_norm"]) ** 2
             if r["unitarity_defect"] > tol or r["symmetry_defect"] > tol:
-                bad.append({"what": "S†S ≠ 1" if r["unitarity_defect"] > tol else "T ≠ Tᵀ", **case, **r, "tolerance": tol})
+                case.update(classify(case))
+                rec = {"what": "S†S ≠ 1" if r["unitarity_defect"] > tol else "T ≠ Tᵀ", **case, **r, "tolerance": tol}
+                if guard_class(case) == "rho(m_R^2) > 0 but FormFactor(m_R^2) not real":
+                    obs = chk.coverage.setdefault("observations", [])
+                    if len(obs) < 6:
+                        obs.append({"class": OBSERVATION_CLASS, **rec})
+                else:
+                    bad.append(rec)
     finally:
         import shutil
 
@@ -280,26 +477,68 @@ def n3_regenerate(cap_s: int = 900):
 
 
 def signature_of(f: dict) -> dict:
-    if f.get("kind") == "rel" and f.get("sub_threshold_pole"):
-        return {"class": KNOWN_CLASS}
+    """Known finding ONLY where the guard of the theorems fails for the phase-space factor the caller
+    passed (ρ_i(m_R²) not real and positive: PhaseSpaceFactor / PhaseSpaceFactorComplex with a pole below a
+    threshold). A sub-threshold pole with a factor that is real and positive there (PhaseSpaceFactorAbs)
+    satisfies the guard: a failure on such an input is a violation."""
+    if f.get("kind") == "rel" and "values" in f:
+        c = classify(f)  # recomputed from the stored input, never taken from the record
+        if not c["rho_at_pole_real_positive"]:
+            return {"class": KNOWN_CLASS, "rho_at_pole_real_positive": False}
+        if not c["ff_at_pole_real"]:
+            return {"class": OBSERVATION_CLASS, "rho_at_pole_real_positive": True, "ff_at_pole_real": False}
+        return {"class": VIOLATION_CLASS, "what": f.get("what"), "rho_at_pole_real_positive": True,
+                "phsp": f.get("phsp"), "sub_threshold_pole": bool(f.get("sub_threshold_pole"))}
     if "kind" in f:
-        return {"class": "K-matrix not unitary/symmetric with every pole above every threshold", "what": f.get("what")}
-    return {"what": f.get("what")}
+        return {"class": "K-matrix not unitary/symmetric (no phase-space factor at a pole mass involved)",
+                "kind": f.get("kind"), "what": f.get("what")}
+    return {"what": f.get("what"), "class": f.get("class")}
 
 
 def replay(data: dict) -> int:
     """./check C09 --replay FILE : re-evaluate the stored failing input on the current tree."""
     common.use_repo_source()
     case = data.get("input", data)
+    if "passed" in case:  # a forwarding case
+        import sympy as sp
+
+        reg = dict(C09_occ.phsp_registry())
+        reg[C09_occ.MARKER_NAME] = C09_occ.marker_phsp()
+        name = case["passed"]["phsp_factor"]
+        impl = reg[name]
+        L = sp.sympify(case["passed"]["angular_momentum"])
+        d = sp.sympify(case["passed"]["meson_radius"])
+        if L.is_Symbol:
+            L = sp.Symbol(L.name, integer=True, nonnegative=True)
+        if d.is_Symbol:
+            d = sp.Symbol(d.name, positive=True)
+        m = C09_occ.formulate(case["class"], case["n_channels"], case["n_poles"], case["hat"], impl, L, d)
+        occ = C09_occ.occurrences(m, reg, extra_classes=[impl] if isinstance(impl, type) else [])
+        print(json.dumps({"passed": case["passed"], "found_now": occ}, indent=1))
+        row = {"cls": case["class"], "n_channels": case["n_channels"], "n_poles": case["n_poles"],
+               "relativistic": case["class"].startswith("Relativistic"), **occ}
+        if row["relativistic"]:
+            ok = (name in occ["phsp"] and occ["L"] == [str(L)] and occ["d"] == [str(d)]
+                  and C09_occ.items_ok(row, set(occ["phsp"]) if not isinstance(impl, type) else {name}, str(L), str(d)))
+        else:
+            ok = occ["items"] == []
+        if not ok:
+            print("VIOLATION property=C09 replay=<given file>")
+        return 0 if ok else 1
     if "values" not in case:
         print(json.dumps(data, indent=1))
         return PROP.run("quick", 0)
     r = evaluate_case(case)
     tol = 1e-9 * (1 + r["T_norm"]) ** 2
-    print(json.dumps({"case": {k: case[k] for k in ("kind", "n_channels", "n_poles", "L", "phsp", "sub_threshold_pole")}, **r, "tolerance": tol}, indent=1))
+    sig = signature_of(case)
+    print(json.dumps({"case": {k: case.get(k) for k in ("kind", "n_channels", "n_poles", "L", "phsp", "sub_threshold_pole")},
+                      "signature": sig, **r, "tolerance": tol}, indent=1))
     failed = r["unitarity_defect"] > tol or r["symmetry_defect"] > tol
-    if failed and signature_of(case).get("class") == KNOWN_CLASS:
+    if failed and sig.get("class") == KNOWN_CLASS:
         print(f"KNOWN-FINDING: property=C09 {KNOWN_CLASS}")
+        return 0
+    if failed and sig.get("class") == OBSERVATION_CLASS:
+        print(f"OBSERVATION (notes/findings_C09.md, not in the verdict): {OBSERVATION_CLASS}")
         return 0
     if failed:
         print("VIOLATION property=C09 replay=<given file>")
